@@ -33,8 +33,7 @@ LEVEL_NOTE = 'trusted: models/rp66_ref.py; bounds as stated'
 CODES = [19, 2, 5, 6, 7, 12, 13, 14, 15, 16, 17, 18, 20, 21, 22, 23, 24, 26, 27]
 VALUES = {
     2: [1.5, -153.0], 5: [b'\x42\x99\x00\x00', b'\xc1\x10\x00\x00', b'\xc2\x99\x00\x00', b'\x40\x40\x00\x00'],   # 153, -1 (odd exponent), -153, 0.25
-     6: [b'\x0c\x44\x00\x80', b'\x80\xc0\x00\x00', b'\x0c\xc4\x00\x80', b'\x80\x3f\x00\x00'],   # 153, -1 (odd exponent), -153, 0.25
-    
+     6: [b'\x0c\x44\x00\x80', b'\x80\xc0\x00\x00', b'\x0c\xc4\x00\x80', b'\x80\x3f\x00\x00', b'\x00\x00\x00\x00', b'\x12\x00\x56\x34'],   # 153, -1 (odd exponent), -153, 0.25, zero, zero with fraction bits set (E = 0, S = 0)
     7: [0.1, -1e300], 12: [-128, 127], 13: [-32768, 32767], 14: [-2 ** 31, 2 ** 31 - 1], 15: [0, 255], 16: [0, 65535],
     17: [0, 2 ** 32 - 1], 18: [127, 16384], 19: [b'', b'Ab 1'], 20: [b'hello world', b'x' * 200],
     21: [(1987, 0, 4, 19, 21, 20, 15, 620), (2021, 2, 12, 31, 23, 59, 59, 999)], 22: [0, 300],
@@ -233,7 +232,9 @@ def check_files(case_files, layout='one', reindex=True):
     from TotalDepth.RP66V1.core import LogicalFile
     data, exp = build(case_files, layout)
     try:
-        index_object = LogicalFile.LogicalIndex(io.BytesIO(data))
+        stream = io.BytesIO(data)
+        stream.seek((0, 80, len(data), 84)[len(data) % 4])      # a caller's file object is where the caller left it (after recognising the label, after writing it)
+        index_object = LogicalFile.LogicalIndex(stream)
         with index_object as idx:
             got = [[(pe.eflr.lr_type, observed_table(pe.eflr)) for pe in lf.eflrs] for lf in idx.logical_files]
             kept = idx.logical_files
@@ -559,7 +560,7 @@ def run_shard(shard, tier):
                 res.violate(sig, case, msg)
         return res
     gen = gen_D(tier, shard['code']) if shard['gen'] == 'D' else gen_W(tier, shard['ncols'], shard['vcode'])
-    if shard['gen'] == 'D' and shard['code'] in (16, 19, 2, 23):
+    if shard['gen'] == 'D' and shard['code'] in (16, 19, 2, 23, 5, 6):
         # (the modulo filter below spreads these over the shards of the code as well)
         gen = itertools.chain(gen_big_counts(shard['code']), gen)
     for i, s in enumerate(gen):
